@@ -105,14 +105,18 @@ inductive Response where
 /-- a byte string that parses as a DOWNLINK data frame (`EncryptedDataPayload::parse` succeeds and the MType is
 UnconfirmedDataDown / ConfirmedDataDown, i.e. `!is_uplink()`).  A frame with an uplink MType (the device's own uplink
 echoed back, another device's uplink) is not a frame for an end-device, whatever its MIC: its view is `RxView.garbage`
-(`Session::handle_rx` returns `NoUpdate` for it before any other test; tie A: `C05.tieA_handle_rx_uplink_typed`) -/
+(`Session::handle_rx` returns `NoUpdate` for it before any other test; tie A: `C05.tieA_handle_rx_uplink_typed`).
+Builder Y — a downlink frame ADDRESSED TO ANOTHER DEVICE (its FHDR DevAddr is not the session's) is never authentic for
+this device, whatever key its MIC was computed with: the reference codec gives it `micFcnt = none` (so that its length
+stays visible to the size test, which comes first in the code too), and a frame that fits is then `NoUpdate` exactly like
+`RxView.garbage` (tie A: `C05.tieA_handle_rx_other_devaddr`; no semantic change of the model) -/
 structure RxData where
   /-- length of the whole PHY payload -/
   len : Nat
   confirmed : Bool
   fcnt16 : Nat
   /-- the 32-bit counter under which the frame's MIC verifies with the session's NwkSKey
-  (`none`: it verifies under no counter — forged, other session, corrupted) -/
+  (`none`: it verifies under no counter — forged, other session, corrupted, or addressed to another DevAddr) -/
   micFcnt : Option Nat
   fopts : List Nat
   fport : Option Nat
